@@ -147,6 +147,71 @@ func (s *c08State) freshContent(bid int) ast.Block {
 	return b
 }
 
+// c08ChainFork is the second history template: a chain of attenuations of depth 1..9 (slices
+// that grow by doubling have spare capacity at 3, 5, 6, 7, 9 elements) with 2-3 siblings forked
+// from the tip at several depths, some tips re-loaded or sealed; every live token is re-observed
+// after every operation, as in the random template.
+func c08ChainFork(s *c08State, mk func() ast.Block) {
+	c, r, f := s.c, s.c.R, s.f
+	depth := 2 + r.Intn(8)
+	tip := 0
+	forks := 0
+	for d := 1; d <= depth; d++ {
+		l, err := f.Append(tip, mk())
+		if err != nil {
+			c.Violate("append-refused", err.Error(), s.wit(nil))
+			return
+		}
+		tip = len(f.Tokens) - 1
+		op := fmt.Sprintf("append(#%d) -> #%d [chain depth %d]", f.Tokens[tip].T.B.BlockCount()-1, tip, d)
+		s.log(op)
+		s.register(l)
+		s.reobserve(op)
+		if r.Intn(5) == 0 {
+			// continue the chain from a re-loaded copy of the tip
+			if rl, err := f.Reload(tip); err == nil {
+				tip = len(f.Tokens) - 1
+				op = fmt.Sprintf("unmarshal(serialize(#%d)) -> #%d", tip-1, tip)
+				s.log(op)
+				s.register(rl)
+				s.reobserve(op)
+			}
+		}
+		if d >= 2 && (r.Intn(3) == 0 || d == depth) && len(f.Tokens) < 22 {
+			// fork: several siblings from the same tip, each with its own content
+			n := 2 + r.Intn(2)
+			for k := 0; k < n; k++ {
+				var sl *Live
+				var err error
+				kind := "append"
+				if k == n-1 && r.Intn(3) == 0 {
+					kind = "seal"
+					sl, err = f.Seal(tip)
+				} else {
+					blk := s.freshContent(100*d + k)
+					sl, err = f.Append(tip, blk)
+				}
+				if err != nil {
+					c.Violate("sibling-refused", err.Error(), s.wit(nil))
+					return
+				}
+				op = fmt.Sprintf("%s(#%d) -> #%d [sibling %d of %d at depth %d]", kind, tip, len(f.Tokens)-1, k+1, n, d)
+				s.log(op)
+				s.register(sl)
+				s.reobserve(op)
+			}
+			forks++
+		}
+	}
+	if forks > 0 {
+		c.NT("chain-fork/" + core.JSON(s.ops))
+		c.Count("chain_fork_histories", 1)
+		c.Count(fmt.Sprintf("chain_fork_depth_%d", depth), 1)
+	}
+	c.Count("tokens_live", len(f.Tokens))
+	c.Sample(map[string]any{"kind": "chain-and-fork history", "ops": s.ops, "live_tokens": len(f.Tokens), "depth": depth, "forks": forks})
+}
+
 func c08Run(c *core.C) {
 	r := c.R
 	f := newFamily(r, c.Seed, fmt.Sprintf("c08-%d", c.Idx), 2)
@@ -162,6 +227,10 @@ func c08Run(c *core.C) {
 	}
 	s.log("build -> #0")
 	s.register(root)
+	if c.Idx%2 == 1 {
+		c08ChainFork(s, mk)
+		return
+	}
 	nOps := 20 + r.Intn(25)
 	if !c.Thorough() {
 		nOps = 14 + r.Intn(14)
@@ -346,20 +415,28 @@ func init() {
 	core.Register(&core.Prop{
 		ID:    "C08",
 		Level: "exploration",
-		Rule: "each case: one seeded history of 14-45 operations over a growing family (<=10 live tokens) drawn from {create-block, add-to-builder, build-block, append, seal, serialize+unmarshal, get-block-id with unknown symbols, authorize+print}, biased to the dangerous shape (several builders open on one parent at once, interleaved adds that intern different new symbols, building in the opposite order to creation, siblings appended from one parent). After EVERY operation EVERY live token is re-observed (String, Code, Serialize, Unmarshal(Serialize).String, RevocationIds, key id, panel behaviour) and compared with its creation snapshot; every new token is decoded by R3 and compared with what its own caller put in; every built-but-unappended block is observed through a throw-away append. " +
+		Rule: "two history templates alternate. Odd cases: chain-and-fork - a chain of attenuations of depth 2-9 from one root (tips occasionally re-loaded), with 2-3 siblings (appends with fresh symbols, sometimes a seal) forked from the same tip at several depths, so that parents whose internal slices have spare capacity (3, 5, 6, 7, 9 blocks) are forked. Even cases: one seeded history of 14-45 operations over a growing family (<=10 live tokens) drawn from {create-block, add-to-builder, build-block, append, seal, serialize+unmarshal, get-block-id with unknown symbols, authorize+print}, biased to the dangerous shape (several builders open on one parent at once, interleaved adds that intern different new symbols, building in the opposite order to creation, siblings appended from one parent). After EVERY operation EVERY live token is re-observed (String, Code, Serialize, Unmarshal(Serialize).String, RevocationIds, key id, panel behaviour) and compared with its creation snapshot; every new token is decoded by R3 and compared with what its own caller put in; every built-but-unappended block is observed through a throw-away append. " +
 			"Non-trivial = histories with >=2 builders on one parent that each interned content before either was observed (distinct by operation list).",
 		Assumptions: []string{"a block builder is built once and its block is appended only to the token it was created from", "re-using a root Builder after Build is not an operation on a token (not claimed)"},
 		NumCases: func(tier string) int {
 			if tier == "thorough" {
 				return 50000
 			}
-			return 500
+			return 640
 		},
 		Run: c08Run,
 		Floor: func(a *core.Agg) []string {
 			u := []string{}
-			if a.Cnt["histories_with_sibling_builders"] < 150 {
-				u = append(u, fmt.Sprintf("histories with sibling builders %d < 150", a.Cnt["histories_with_sibling_builders"]))
+			if a.Cnt["chain_fork_histories"] < 150 {
+				u = append(u, fmt.Sprintf("chain-and-fork histories %d < 150", a.Cnt["chain_fork_histories"]))
+			}
+			for d := 3; d <= 9; d++ {
+				if a.Cnt[fmt.Sprintf("chain_fork_depth_%d", d)] == 0 {
+					u = append(u, fmt.Sprintf("no chain-and-fork history of depth %d", d))
+				}
+			}
+			if a.Cnt["histories_with_sibling_builders"] < 60 {
+				u = append(u, fmt.Sprintf("histories with sibling builders %d < 60", a.Cnt["histories_with_sibling_builders"]))
 			}
 			return u
 		},
